@@ -305,19 +305,33 @@ Section ReadBack.
   Qed.
 End ReadBack.
 
-(* ================================================================== values at R *)
-Local Notation RO := ROps.
+(* ================================================================== values
+   The value-level statements need only five laws of the number system, collected in [lawful]; they hold for
+   Coq's real numbers ([reals_lawful] at the end of the file), and every statement of the section is proved for an
+   arbitrary lawful [O] (inside the section [RO] is that arbitrary O). *)
+Record lawful (O : NumOps) : Prop := {
+  law_eqb_refl : forall x : T O, eqb O x x = true;                     (* x == x *)
+  law_eqb_eq : forall x y : T O, eqb O x y = true -> x = y;            (* x == y only for equal values *)
+  law_one_nonzero : eqb O (@one O) (@zero O) = false;                  (* 1.0 != 0.0 *)
+  law_mul_one : forall x : T O, mul O x (@one O) = x;                  (* x * 1.0 == x *)
+  law_div_one : forall x : T O, div O x (@one O) = x                   (* x / 1.0 == x *)
+}.
+
+Section Values.
+Context {O : NumOps} (L : lawful O).
+Local Notation RO := O.
 Definition maskmul (v : T RO) (m : bool) : T RO := mul RO v (@tofloat RO (negb m)).
 
 Lemma tobool_tofloat b : @tobool RO (@tofloat RO b) = b.
 Proof.
-  unfold tobool, tofloat, zero, one. cbn [eqb RO ofZ]. unfold Reqb.
-  destruct b; destruct (Req_EM_T _ _) as [H|H]; cbn; try reflexivity; exfalso; lra.
+  unfold tobool, tofloat. destruct b.
+  - now rewrite (law_one_nonzero O L).
+  - now rewrite (law_eqb_refl O L).
 Qed.
 Lemma maskmul_false v : maskmul v false = v.
-Proof. unfold maskmul, tofloat, one. cbn. lra. Qed.
-Lemma Reqb_refl x : Reqb x x = true.
-Proof. unfold Reqb. destruct (Req_EM_T x x); [reflexivity|contradiction]. Qed.
+Proof. unfold maskmul, tofloat. cbn [negb]. apply (law_mul_one O L). Qed.
+Lemma Reqb_refl (x : T RO) : eqb RO x x = true.
+Proof. apply (law_eqb_refl O L). Qed.
 
 Lemma slim_row_maskmul (m : list bool) : forall v : list (T RO), @slim_row RO m (map2 maskmul v m) = @slim_row RO m v.
 Proof.
@@ -379,24 +393,24 @@ Proof.
 Qed.
 
 (* ---- header: PIXSCALE for equal scales, PIXSCALEY / PIXSCALEX otherwise; the reader inverts both ---- *)
-Theorem pixel_scale_header_roundtrip (sy sx : R) :
+Theorem pixel_scale_header_roundtrip (sy sx : T RO) :
   @pixel_scales_via_header_from RO (@pixel_scale_header RO (@scales2 RO (sy, sx))) = FOk (sy, sx).
 Proof.
-  unfold pixel_scale_header, scales2. cbn [fst snd forallb nth eqb RO]. rewrite Reqb_refl. cbn [andb].
-  destruct (Reqb sx sy) eqn:E; cbn [andb].
-  - apply Reqb_true in E. subst. reflexivity.
+  unfold pixel_scale_header, scales2. cbn [fst snd forallb nth]. rewrite Reqb_refl. cbn [andb].
+  destruct (eqb RO sx sy) eqn:E; cbn [andb].
+  - apply (law_eqb_eq O L) in E. subst. reflexivity.
   - reflexivity.
 Qed.
-Theorem pixel_scale_header_iso (s : R) : @pixel_scale_header RO (@scales2 RO (s, s)) = [(PIXSCALE, s)].
-Proof. unfold pixel_scale_header, scales2. cbn [fst snd forallb nth eqb RO]. now rewrite Reqb_refl. Qed.
-Theorem pixel_scale_header_aniso (sy sx : R) : sy <> sx ->
+Theorem pixel_scale_header_iso (s : T RO) : @pixel_scale_header RO (@scales2 RO (s, s)) = [(PIXSCALE, s)].
+Proof. unfold pixel_scale_header, scales2. cbn [fst snd forallb nth]. now rewrite Reqb_refl. Qed.
+Theorem pixel_scale_header_aniso (sy sx : T RO) : sy <> sx ->
   @pixel_scale_header RO (@scales2 RO (sy, sx)) = [(PIXSCALEY, sy); (PIXSCALEX, sx)].
 Proof.
-  intros H. unfold pixel_scale_header, scales2. cbn [fst snd forallb nth eqb RO]. rewrite Reqb_refl.
-  destruct (Reqb sx sy) eqn:E; [apply Reqb_true in E; congruence|reflexivity].
+  intros H. unfold pixel_scale_header, scales2. cbn [fst snd forallb nth]. rewrite Reqb_refl.
+  destruct (eqb RO sx sy) eqn:E; [apply (law_eqb_eq O L) in E; congruence|reflexivity].
 Qed.
-Theorem pixel_scale_header_1d (s : R) : @pixel_scale_header RO [s] = [(PIXSCALE, s)].
-Proof. unfold pixel_scale_header. cbn [forallb nth eqb RO]. now rewrite Reqb_refl. Qed.
+Theorem pixel_scale_header_1d (s : T RO) : @pixel_scale_header RO [s] = [(PIXSCALE, s)].
+Proof. unfold pixel_scale_header. cbn [forallb nth]. now rewrite Reqb_refl. Qed.
 
 (* ---- HDU route, 2-D arrays and kernels ---- *)
 Lemma flip_unflip {V X} flip (a : list X) (hd : header V) :
@@ -660,6 +674,8 @@ Proof.
   exists a'. rewrite Hn', Hs', Hn, Hs. auto.
 Qed.
 
+End Values.
+
 Section FSStatements.
   Context {C : Type}.
   Implicit Types (fs : fsys C) (p q : path) (c : C).
@@ -696,3 +712,14 @@ Section FSStatements.
     exists fs'. repeat split; auto.
   Qed.
 End FSStatements.
+
+(* ================================================================== the laws hold for the real numbers *)
+Theorem reals_lawful : lawful ROps.
+Proof.
+  constructor; unfold one, zero; cbn [T eqb mul div ofZ ROps].
+  - intros x. unfold Reqb. destruct (Req_EM_T x x); [reflexivity|contradiction].
+  - intros x y H. now apply Reqb_true.
+  - apply Reqb_false. lra.
+  - intros x. lra.
+  - intros x. field.
+Qed.
